@@ -1592,6 +1592,9 @@ fn parse_corpus() -> Vec<&'static str> {
         "e(u128;0;1)",
         "e(i128;0)",
         "e(u8;1c;2c)",
+        "e(i8;0/-1)",
+        "e(i8;0/-1c)",
+        "e(i16;3/5/-7;_c)",
         "e(u8;0;_c;_c)",
         "e(u8;0;1/2c)",
         "e(u8;0d;1d)",
@@ -1687,7 +1690,8 @@ fn mutate_enum(rng: &mut Rng, e: &EnumTy) -> EnumTy {
     let mut m = e.clone();
     let n = m.variants.len();
     let vi = rng.below(n.max(1) as u64) as usize;
-    match rng.below(9) {
+    match rng.below(10) {
+        9 if n > 0 => m.variants[vi].alts.push(-(rng.below(100) as i128) - 1),
         0 => m.repr = "none".into(),
         1 => m.repr = rng.pick(&["usize", "isize"]).to_string(),
         2 => m.repr = rng.pick(&["u128", "i128"]).to_string(),
